@@ -742,6 +742,7 @@ namespace c21_lltiming {
         struct Outstanding { int req; i64 since; };
         std::deque< Outstanding > outstanding;
         i64      exchanges = 0;
+        int      waiting_proc_op = -1;
         bool     progress_possible = true;
 
         // peripheral tracking
@@ -763,6 +764,9 @@ namespace c21_lltiming {
         bool f_long_elapsed = false, f_wrap_traffic = false, f_upd_applied = false, f_map_applied = false, f_phy_applied = false;
         bool f_clamped = false, f_tw_miss = false;
         int  nonempty_while_pending = 0;
+        bool f_proc_busy = false, f_rx_full = false, f_reply_lost = false, f_deadlock = false, f_pending_after = false, f_phy_nochange = false;
+        bool f_disarm_granted = false, f_disarm_refused = false;
+        std::vector< std::string > delta_labels;
 
         Run( const Case& cc, verif::Report& rr )
             : c( cc ), rep( rr ), cf( configs()[ static_cast< std::size_t >( cc.cfg ) % configs().size() ] ), dev( cf.make() ), r( dev->rec() ), prop( prop_no() ),
@@ -892,7 +896,7 @@ namespace c21_lltiming {
                 LL_CHECK( sched_abs <= proc.instant, "instant.skipped", "a procedure is pending for the instant ", proc.instant, " but after event ", prev_abs, " event ", sched_abs, " is scheduled" );
                 if ( sched_abs == proc.instant && lat > 0 && n < lat + 1 && h == AFTER_EVENT && !cond_listen ) f_clamped = true;
             }
-            if ( prop != 22 && h == AFTER_EVENT && cond_listen )
+            if ( prop == 23 && h == AFTER_EVENT && cond_listen )
             {
                 LL_CHECK( n == 1, "latency.listen-condition", "the condition `", cond_name, "` of the latency configuration held in event ", prev_abs, " but the next ", n - 1, " events are skipped" );
                 if ( lat > 0 ) f_cond_listen = true;
@@ -1087,8 +1091,10 @@ namespace c21_lltiming {
                 // nothing else is in flight, so that the peripheral certainly handles the PDU in the event that carries it
                 if ( can_start_procedure() )
                     txq.push_back( { {}, 0, op_index } );
+                else if ( waiting_proc_op < 0 )
+                    waiting_proc_op = op_index;  // started as soon as the central is idle
                 else
-                    rep.label( "procedure-not-started(busy)" );
+                    f_proc_busy = true;
                 break;
             }
         }
@@ -1132,12 +1138,14 @@ namespace c21_lltiming {
             {
                 // no PHY changes: the instant has no meaning (Vol 6 Part B 5.1.10), nothing is pending
                 proc.kind = PR_NONE;
-                rep.label( "phy-update-without-change" );
+                f_phy_nochange = true;
                 return false;
             }
             if ( delta >= -2 && delta <= 2 ) f_proc_near = true;
             if ( proc.grey ) f_grey = true;
-            rep.label( verif::cat( "instant-delta=", delta <= -2 ? "past" : delta == 32767 ? "32767" : delta > 2 ? ">2" : std::to_string( delta ) ) );
+            const std::string dl = verif::cat( "instant-delta=", delta <= -2 ? "past" : delta == 32767 ? "32767" : delta > 2 ? ">2" : std::to_string( delta ) );
+            if ( std::find( delta_labels.begin(), delta_labels.end(), dl ) == delta_labels.end() )
+                delta_labels.push_back( dl );
             return true;
         }
 
@@ -1191,6 +1199,11 @@ namespace c21_lltiming {
 
         bool op_event( const Op& o, int op_index )
         {
+            if ( waiting_proc_op >= 0 && can_start_procedure() )
+            {
+                txq.push_back( { {}, 0, waiting_proc_op } );
+                waiting_proc_op = -1;
+            }
             enqueue( o, op_index );
             const i64       e     = sched_abs;
             const bool      first = !established;
@@ -1219,7 +1232,7 @@ namespace c21_lltiming {
             if ( !have_inflight && !txq.empty() && txq.front().proc_op >= 0 )
             {
                 txq.pop_front();  // receive buffer full: the central gives the procedure up before it was sent
-                rep.label( "procedure-not-started(busy)" );
+                f_proc_busy = true;
             }
             std::vector< u8 > pdu = have_inflight ? inflight.bytes : std::vector< u8 >{ 0x01, 0x00 };
 
@@ -1241,20 +1254,20 @@ namespace c21_lltiming {
             else
             {
                 t = dev->next_transmit();
-                rep.label( "rx-buffer-full" );
+                f_rx_full = true;
             }
             const bool tx_not_empty = t.buffer[ 1 ] != 0;
             // (receive buffer full and the peripheral repeats a PDU: both rings are full, acknowledgements are not seen any more --
             //  a flow control matter of C15-C17, no progress can be expected here)
             progress_possible = b.size != 0 || ( !tx_not_empty && !dev->pending_tx() );
             if ( !progress_possible )
-                rep.label( "rx-full-and-tx-pending(no acknowledgements seen)" );
+                f_deadlock = true;
             tr( "event ", e, " cnt ", sched_cnt, " ch ", r.evt_channel, " win ", r.evt_start, "..", r.evt_end, b.size ? "" : " RXFULL", " C->P ", verif::hex( pdu.data(), pdu.size() ), "  P->C ",
                 verif::hex( t.buffer, std::size_t( t.buffer[ 1 ] ) + 2 ), o.lost ? " (reply lost)" : "" );
             if ( !o.lost )
                 handle_reply( t );
             else
-                rep.label( "reply-lost" );
+                f_reply_lost = true;
 
             ll::connection_event_events ev;
             ev.unacknowledged_data         = o.unack;
@@ -1296,7 +1309,14 @@ namespace c21_lltiming {
                 }
                 check_scheduled( AFTER_EVENT, seen, cond != nullptr, cond ? cond : "" );
                 if ( ( feat & F_PENDING ) && dev->pending_tx() && sched_abs - prev_abs > 1 )
-                    rep.label( "data-became-pending-after-planning,event-skipped" );
+                {
+                    // data (a notification, a control PDU of the link layer) was handed to the transmit buffer at the end of end_event(),
+                    // after the next event was planned
+                    f_pending_after = true;
+                    if ( verif::opt_int( "strict_pending", prop == 23 ? 1 : 0 ) )
+                        LL_CHECK( false, "latency.pending-after-planning", "after event ", prev_abs, " there is data to transmit and listen_if_pending_transmit_data is configured, but ", sched_abs - prev_abs - 1,
+                            " events are skipped (event ", sched_abs, " is scheduled)" );
+                }
                 check_not_blocked();
                 return true;
             }
@@ -1392,7 +1412,7 @@ namespace c21_lltiming {
                 LL_CHECK( r.evt_pending && r.evt_count == seen_evt_count, "pullback.spurious-schedule", "a connection event was scheduled without disarming the pending one" );
                 return;
             }
-            rep.label( grant ? "disarm-granted" : "disarm-refused" );
+            ( grant ? f_disarm_granted : f_disarm_refused ) = true;
             tr( "notify: disarm ", grant ? "granted" : "refused", " at ", r.disarm_time, " us; now event ", sched_abs + static_cast< std::int16_t >( static_cast< std::uint16_t >( ( dev->counter() & 0xffff ) - sched_cnt ) ),
                 " win ", r.evt_start, "..", r.evt_end );
             if ( !grant )
@@ -1457,6 +1477,16 @@ namespace c21_lltiming {
             rep.label_if( f_skipped, "events-skipped" );
             rep.label_if( pullback_after_apply, "pullback-after-apply(F-21b shape)" );
             rep.label_if( !monitors, "crash-only(grey connect request)" );
+            rep.label_if( f_proc_busy, "procedure-not-started(central busy)" );
+            rep.label_if( f_rx_full, "rx-buffer-full" );
+            rep.label_if( f_reply_lost, "reply-lost" );
+            rep.label_if( f_deadlock, "rx-full-and-tx-pending(no acknowledgements seen)" );
+            rep.label_if( f_pending_after, "data-became-pending-after-planning,event-skipped" );
+            rep.label_if( f_phy_nochange, "phy-update-without-change" );
+            rep.label_if( f_disarm_granted, "disarm-granted" );
+            rep.label_if( f_disarm_refused, "disarm-refused" );
+            for ( auto& l : delta_labels )
+                rep.label( l );
             if ( prop == 21 )
                 rep.nontrivial = f_proc_near || f_lat_pending || f_lost_pending;
             else if ( prop == 22 )
